@@ -8,6 +8,7 @@ import PdsVerif.Props.C02
 import PdsVerif.Props.C04
 import PdsVerif.Props.C08
 import PdsVerif.Props.C14
+import PdsVerif.Props.C15
 import PdsVerif.Props.C18
 import PdsVerif.Props.C19
 import PdsVerif.Props.C20
